@@ -338,11 +338,44 @@ def split1Bytes (sep : UInt8) : List UInt8 → Option (List UInt8 × List UInt8)
     | none => none
     | some (a, b) => some (c :: a, b)
 
-/-- `_cpreqbody.unquote_plus` (bytes): `+` → space, then `%XX`.  (Python's `int(x, 16)` also accepts a few
-    two-character forms that are not two hex digits; they only ever produce ASCII bytes from ASCII bytes,
-    which no codec here distinguishes.) -/
+/-- white space `int(bytes, 16)` strips -/
+def isIntSpace (b : Nat) : Bool := (9 ≤ b && b ≤ 13) || b == 32
+
+/-- `bytes([int(item[:2], 16)])` for the (at most two) bytes after a `%`: the byte value, or `none` when `int()` or
+    `bytes()` raises `ValueError`.  `int(.., 16)` also takes one hex digit alone, next to one white-space byte, or
+    after a sign (a negative value is then refused by `bytes()`). -/
+def hexPair? : List Nat → Option Nat
+  | [a, b] =>
+    match hexVal? a, hexVal? b with
+    | some x, some y => some (x * 16 + y)
+    | some x, none => if isIntSpace b then some x else none
+    | none, some y =>
+      if isIntSpace a || a == 43 then some y
+      else if a == 45 then (if y == 0 then some 0 else none)
+      else none
+    | none, none => none
+  | [a] => hexVal? a
+  | _ => none
+
+/-- one atom after a `%`: the decoded byte and the rest, or - when the two characters are not a number - the atom
+    as it is (the `%` itself is dropped by the `b''.join`) -/
+def unquoteAtom (item : List Nat) : List Nat :=
+  match hexPair? (item.take 2) with
+  | some v => v :: item.drop 2
+  | none => item
+
+def splitNat (sep : Nat) : List Nat → List (List Nat)
+  | [] => [[]]
+  | c :: rest =>
+    match splitNat sep rest with
+    | [] => [[]]
+    | cur :: more => if c = sep then [] :: cur :: more else (c :: cur) :: more
+
+/-- `_cpreqbody.unquote_plus` (bytes): `+` → space, split at `%`, every atom but the first through `unquoteAtom` -/
 def unquotePlusBytes (b : List UInt8) : List UInt8 :=
-  pctDecode ((b.map fun x => if x = 43 then 32 else x).map UInt8.toNat)
+  match splitNat 37 ((b.map fun x => if x = 43 then 32 else x).map UInt8.toNat) with
+  | [] => []
+  | first :: rest => ((first :: rest.map unquoteAtom).flatten).map UInt8.ofNat
 
 def atomsOf (body : List UInt8) : List (List UInt8) :=
   ((splitBytes 38 body).flatMap (splitBytes 59)).filter (· ≠ []) |>.flatMap fun pair =>
